@@ -1,4 +1,5 @@
 import Sop.Lemmas.ValuePlacement
+import Sop.Model.ValuePlacementX
 /-! # C19 — persisted stores hold exactly what was written, under every storage option
 
 `run pl ops` is the model of a single-writer, crash-free history on one store with placement `pl`
@@ -304,5 +305,147 @@ theorem C19_persisted_eq_model_outside_findings (pl : Placement) (ops : List Op)
 
 example : findingHistory active sampleActive = false ∧ findingHistory inNode witnessInterior = false ∧
     findingHistory active witnessInterior = false := by decide +kernel
+
+/-! ## key-only updates and genuine out-of-node references (`Sop.Model.ValuePlacementX`)
+
+A store that is not actively persisted holds a GENUINE reference (`Value = nil, ValueNeedsFetch = true`) only for items
+written by a transaction that went through the conflict / refetch-and-merge round (`commitAfterConflict`).
+`UpdateKey` / `UpdateCurrentKey` replace no value.  The value blob of an item may be queued for deletion only when the
+item is removed or its value replaced. -/
+
+/-- `manage` on an update that carries no new value: nothing is queued for deletion, no blob is written, the item keeps
+its ID -/
+theorem manage_update_without_value (t : Tracker) (u : Nat) (it : Item) (n : Nat) (h : it.val = none) :
+    (manage t u ⟨.update, it⟩ n).t.forDel = t.forDel ∧ (manage t u ⟨.update, it⟩ n).blob = none ∧
+    (manage t u ⟨.update, it⟩ n).item = it ∧ (manage t u ⟨.update, it⟩ n).nid = n := by
+  simp [manage, manageTail, h, set_forDel]
+
+theorem manageTail_forDel (t : Tracker) (u : Nat) (a : Action) (it : Item) (n : Nat) :
+    (manageTail t u a it n).t.forDel = t.forDel := by
+  unfold manageTail; split <;> simp [set_forDel]
+
+/-- **A value blob is queued for deletion only when its item is removed or its value replaced**: whatever `manage` adds
+to `forDeletionItems` is the ID of the entry's own item, that item's value lives in its blob, and the entry is a remove
+or an update that carries a new value -/
+theorem manage_queues_only_removed_or_replaced (t : Tracker) (u : Nat) (ci : CItem) (n id : Nat)
+    (h : id ∈ (manage t u ci n).t.forDel) :
+    id ∈ t.forDel ∨ (id = ci.item.id ∧ ci.item.vnf = true ∧
+      (ci.action = .remove ∨ (ci.action = .update ∧ ci.item.val.isSome = true))) := by
+  cases hact : ci.action with
+  | remove =>
+    have hm : (manage t u ci n).t.forDel = (if ci.item.vnf = true then t.forDel ++ [ci.item.id] else t.forDel) := by
+      simp only [manage, hact]
+      by_cases hv : ci.item.vnf = true <;> by_cases hl : (Tracker.lookup { t with forDel := t.forDel ++ [ci.item.id] } u).isSome = true <;>
+        by_cases hl2 : (t.lookup u).isSome = true <;> simp [hv, hl, hl2, set_forDel]
+    rw [hm] at h
+    by_cases hv : ci.item.vnf = true
+    · simp only [hv, if_true, List.mem_append, List.mem_singleton] at h
+      rcases h with h1 | h1
+      · exact Or.inl h1
+      · exact Or.inr ⟨h1, hv, Or.inl rfl⟩
+    · simp only [hv] at h; exact Or.inl h
+  | update =>
+    by_cases hc : (ci.item.vnf && ci.item.val.isSome) = true
+    · have hm : (manage t u ci n).t.forDel = t.forDel ++ [ci.item.id] := by
+        simp only [manage, hact, hc, if_true, manageTail_forDel]
+      rw [hm] at h
+      simp only [Bool.and_eq_true] at hc
+      rcases List.mem_append.1 h with h1 | h1
+      · exact Or.inl h1
+      · exact Or.inr ⟨by simpa using h1, hc.1, Or.inr ⟨rfl, hc.2⟩⟩
+    · have hm : (manage t u ci n).t.forDel = t.forDel := by
+        simp only [manage, hact, hc]; exact manageTail_forDel _ _ _ _ _
+      rw [hm] at h; exact Or.inl h
+  | add =>
+    have hm : (manage t u ci n).t.forDel = t.forDel := by simp only [manage, hact, manageTail_forDel]
+    rw [hm] at h; exact Or.inl h
+  | get =>
+    have hm : (manage t u ci n).t.forDel = t.forDel := by simp only [manage, hact]
+    rw [hm] at h; exact Or.inl h
+
+/-- … which the hoisted variant (NOT the code) violates: it queues the blob of an update that carries no value -/
+theorem manageHoisted_queues_live_blob :
+    (manageHoisted {} 5 ⟨.update, ⟨5, 1, none, true⟩⟩ 9).t.forDel = [5] ∧
+    (manage {} 5 ⟨.update, ⟨5, 1, none, true⟩⟩ 9).t.forDel = [] := by decide +kernel
+
+/-- **A key-only update keeps the item's value blob alive.**  Store that is not actively persisted; the first
+operation of a transaction is `UpdateKey(k)` on an item whose value is NOT in the node (a genuine reference), without
+fetching it; the transaction commits.  The blob store is unchanged — nothing was deleted, nothing rewritten — and
+the tree is the one the transaction began with: every value that loaded before loads now. -/
+theorem C19_key_update_keeps_blob (s : St) (w : Txn) (k : Int) (slot : Item)
+    (hpl : s.place.active = false) (hw : s.work = some w) (ht : w.tracker.items = [])
+    (hf : findKey w.slots k = some slot) (hu : ∀ y ∈ w.slots, y.key = k → y = slot) (hv : slot.val = none) :
+    (((({ s := s } : XSt).apply (.updateKey k false)).apply (.base .commit)).s).blobs = s.blobs ∧
+    (((({ s := s } : XSt).apply (.updateKey k false)).apply (.base .commit)).s).slots = w.slots ∧
+    (((({ s := s } : XSt).apply (.updateKey k false)).apply (.base .commit)).s).work = none := by
+  have hmap : w.slots.map (fun it => if it.key = k then slot else it) = w.slots := by
+    conv => rhs; rw [← List.map_id w.slots]
+    apply List.map_congr_left
+    intro y hy
+    by_cases hk : y.key = k
+    · simp [hu y hy hk]
+    · simp [hk]
+  have hlk : w.tracker.lookup slot.id = none := lookup_nil ht slot.id
+  have hadd : hasAdd w.tracker slot.id = false := by simp [hasAdd, hlk]
+  have hset : (w.tracker.set slot.id ⟨.update, slot⟩).items = [(slot.id, ⟨.update, slot⟩)] := by
+    simp [Tracker.set, ht]
+  cases hin : s.place.inNode with
+  | true =>
+    simp [XSt.apply, hw, St.updateKey, hf, trackerUpdate_nonactive _ hpl, hadd, XSt.commit, hset, hin]
+    exact hmap
+  | false =>
+    simp [XSt.apply, hw, St.updateKey, hf, trackerUpdate_nonactive _ hpl, hadd, XSt.commit, hset, hin, hpl,
+      commitValuesWith, Tracker.lookup, manage, manageTail, hv, putOpt, set_forDel, eraseAll_nil]
+    exact hmap
+
+/-- the genuine reference is produced by the conflict round; the key-only update leaves it readable; the hoisted
+variant (NOT the code) deletes its blob: the item is still in the tree, its value is gone (the harness replays this
+history first: corpus `key-only-update-of-reference`) -/
+def rivalRound : List XOp := [.park, .base .begin, .base (.add 9 (v 9)), .base .commit, .resume, .commitAfterConflict]
+
+def witnessKeyOnly : List XOp :=
+  [.base .begin, .base (.add 1 (v 1)), .base .commit, .base .begin, .base (.add 2 (v 2))] ++ rivalRound ++
+  [.base .begin, .updateKey 2 false, .base .commit]
+
+def viewX (x : XSt) : List (Int × Option Val) := view x.s.blobs x.s.slots
+
+def sepPl : Placement := ⟨false, false, false⟩
+
+theorem C19_hoisted_key_update_witness :
+    -- the code: key 2 is a genuine reference (no value in the node) and reads back
+    (runX sepPl false witnessKeyOnly).s.slots.map (fun it => (it.key, it.val, it.vnf))
+      = [(2, none, true), (9, some (v 9), false), (1, some (v 1), false)] ∧
+    viewX (runX sepPl false witnessKeyOnly) = [(2, some (v 2)), (9, some (v 9)), (1, some (v 1))] ∧
+    -- the hoisted variant: same tree, the blob of key 2 is gone
+    viewX (runX sepPl true witnessKeyOnly) = [(2, none), (9, some (v 9)), (1, some (v 1))] ∧
+    -- with a `GetCurrentValue` before the key update both read back (the update then carries the value)
+    viewX (runX sepPl true (witnessKeyOnly.map (fun o => if o = .updateKey 2 false then .updateKey 2 true else o)))
+      = [(2, some (v 2)), (9, some (v 9)), (1, some (v 1))] := by decide +kernel
+
+/-! ### what the conflict round and the key-only updates do to the code as it stands (open findings C19-F7, F8, F9) -/
+
+/-- C19-F7, every placement: a key ADDED and then updated by a transaction that goes through the conflict round
+keeps the value of the add (the replay re-adds the tracker's item, not the node's slot) -/
+def witnessUpdateAfterAdd : List XOp :=
+  [.base .begin, .base (.add 1 (v 1)), .base .commit, .base .begin, .base (.add 2 (v 2)), .base (.update 2 (v 3))] ++ rivalRound
+
+/-- C19-F8, actively persisted store: an update of an item whose value lives in its blob, in a transaction that goes
+through the conflict round, is lost (`getForRollbackTrackedItemsValues` puts the item's OLD ID back before the replay) -/
+def witnessActiveUpdateLost : List XOp :=
+  [.base .begin, .base (.add 1 (v 1)), .base .commit, .base .begin, .base (.update 1 (v 2)), .base .commit,
+   .base .begin, .base (.update 1 (v 3))] ++ rivalRound
+
+/-- C19-F9, actively persisted store: `GetCurrentValue` + `UpdateCurrentKey` + `Rollback` deletes the COMMITTED value blob
+(the update rewrote the blob under the item's own ID, the rollback deletes the blobs of all tracked updates) -/
+def witnessActiveRollback : List XOp :=
+  [.base .begin, .base (.add 1 (v 1)), .base .commit, .base .begin, .base (.update 1 (v 2)), .base .commit,
+   .base .begin, .updateKey 1 true, .base .rollback]
+
+theorem C19_conflict_round_findings :
+    viewX (runX inNode false witnessUpdateAfterAdd) = [(2, some (v 2)), (9, some (v 9)), (1, some (v 1))] ∧
+    viewX (runX sepPl false witnessUpdateAfterAdd) = [(2, some (v 2)), (9, some (v 9)), (1, some (v 1))] ∧
+    viewX (runX active false witnessActiveUpdateLost) = [(9, some (v 9)), (1, some (v 2))] ∧
+    viewX (runX active false (witnessActiveRollback.take 6)) = [(1, some (v 2))] ∧
+    viewX (runX active false witnessActiveRollback) = [(1, none)] := by decide +kernel
 
 end Sop.C19
